@@ -91,4 +91,28 @@ CLAIMS = {
                 "exercised by the CLI suite (C15), not proved.",
         "technique": "Lean 4 invariant proof over protocol model + gated-thread schedule enumeration",
     },
+    "C07": {
+        "text": "The model with refPolicy is the executable specification; C07_route (descent to the most similar cached centroid, first "
+                "on ties), C07_descend, C07_leaf (merge iff accepted, else new cluster), C07_accept, C07_seeds, C07_mask (entry moves iff "
+                "it is seed 1 or strictly closer to it), C07_split_nonempty (both halves non-empty for any entries), C07_valid state that "
+                "it has the clauses of the property. Equality of the code with it: correspondence on sorted AND leaf-order reports after "
+                "every operation; three-way differential with the legacy uint8/int64 variants.",
+        "note": TB + "PARTIAL: that the code equals the specification is differential (generated histories), not a proof; the legacy "
+                "implementations are not modelled (three-way differential only, cases where they raise are dropped and counted).",
+        "technique": "Lean 4 theorems about the executable specification + differential correspondence + 3-way legacy differential",
+    },
+    "C08": {
+        "text": "Theorem C08_wf: along every history consistent with a labelling D, at every node of the tree: 1 <= #entries <= node "
+                "capacity, capacity >= 2; every inner entry's count, sums and labels equal the totals of the node beneath it (TrackOK); "
+                "every search cache equals its entries' centroids; every entry at every level is exact and kept in the narrowest width; "
+                "the leaf chain lists exactly the leaves of the tree once each and reading through it yields exactly those leaves. "
+                "C08_balanced: all leaves at the same depth (height-indexed type); C08_step: preserved by every single insertion. "
+                "Correspondence compares the FULL private structure (entries, caches, dtypes, capacities, chain) after every operation "
+                "and, for every fourth history, after every single insertion.",
+        "note": TB + "Per-node capacity (a split sibling inherits the old node's capacity, a new root takes the current branching_factor): "
+                "(a) is per node. This is the one check that reads private attributes (_root, _subclusters, _packed_centroids_buf, "
+                "_buffer.dtype, _next_leaf); a rename breaks the tie, not the property. Beyond 2^64 members the model uses an unbounded "
+                "counter where the code raises ValueError.",
+        "technique": "Lean 4 invariant proof over executable model + structural differential correspondence",
+    },
 }
